@@ -1761,19 +1761,25 @@ struct ClosureApplyFn {
 
 fn compile_go(goenv: &GlobalGoEnv, closure: &anf::ImmExpr) -> goast::Stmt {
     let closure_ty = imm_ty(closure);
-    let apply = find_closure_apply_fn(goenv, &closure_ty)
-        .expect("go statement closure must have an apply method");
-
-    let apply_call = anf::CExpr::ECall {
-        func: anf::ImmExpr::ImmVar {
-            name: apply.name.clone(),
-            ty: apply.ty.clone(),
+    let call = match find_closure_apply_fn(goenv, &closure_ty) {
+        Some(apply) => anf::CExpr::ECall {
+            func: anf::ImmExpr::ImmVar {
+                name: apply.name.clone(),
+                ty: apply.ty.clone(),
+            },
+            args: vec![closure.clone()],
+            ty: apply.ret_ty.clone(),
         },
-        args: vec![closure.clone()],
-        ty: apply.ret_ty.clone(),
+        // `go f` where `f` is a plain function value (a top-level function or a
+        // function-typed variable) has no closure environment: call it directly.
+        None => anf::CExpr::ECall {
+            func: closure.clone(),
+            args: Vec::new(),
+            ty: tast::Ty::TUnit,
+        },
     };
 
-    let call_expr = compile_cexpr(goenv, &apply_call);
+    let call_expr = compile_cexpr(goenv, &call);
     goast::Stmt::Go { call: call_expr }
 }
 
